@@ -85,6 +85,18 @@ func (v *parser_) ParseSource(source string) (collection any) {
 	// The scanner runs in a separate Go routine.
 	Scanner().Make(v.source_, v.tokens_)
 
+	// Let the scanner finish whichever way parsing ends, otherwise it stays
+	// blocked forever on a full token queue that nobody reads anymore.
+	var tokens = v.tokens_
+	defer func() {
+		for {
+			var _, ok = tokens.RemoveHead()
+			if !ok {
+				break // The scanner has closed the queue.
+			}
+		}
+	}()
+
 	// Attempt to parse a collection.
 	var token TokenLike
 	var ok bool
